@@ -89,8 +89,8 @@ class SwapSpec(Spec):
             st.assume(z3.And(r != 0, REG(r) == rd, VAL(r) == PYXOR(VAL(x), VAL(y))))
             # machine-level soundness of the SSA reading: both operands are the latest writers of their registers
             for v in (x, y):
-                ex.oblige(st, "assert", f"operand-still-in-its-register:{len(spec.log)}", spec.latest(REG(v)) == v, "property")
-            spec.log.append(r)
+                ex.oblige(st, "assert", f"operand-still-in-its-register:{len(st.ghost['log'])}", spec.latest(st, REG(v)) == v, "property")
+            st.ghost["log"] = st.ghost["log"] + (r,)  # per-path record (Spec attributes are shared by all paths)
             return [Res("val", VRef(r, "XorOp"), st)]
 
         def b_insert(ex, st, args, kw):
@@ -100,10 +100,10 @@ class SwapSpec(Spec):
 
         return {"riscv.XorOp": Builtin(b_xor), "rewriter.insert": Builtin(b_insert, "rewriter.insert(op) returns op (C11)")}
 
-    def latest(self, reg):
+    def latest(self, st, reg):
         """The SSA value that last wrote `reg` among a, b and the ops emitted so far."""
         e = z3.If(REG(self._a) == reg, self._a, z3.If(REG(self._b) == reg, self._b, z3.IntVal(0)))
-        for r in self.log:
+        for r in st.ghost["log"]:
             e = z3.If(REG(r) == reg, r, e)
         return e
 
@@ -111,7 +111,7 @@ class SwapSpec(Spec):
         x, y = res.items
         return [C("first-result-is-old-a-in-b's-register", z3.And(REG(x.z) == REG(a["b"].z), VAL(x.z) == VAL(a["a"].z))),
                 C("second-result-is-old-b-in-a's-register", z3.And(REG(y.z) == REG(a["a"].z), VAL(y.z) == VAL(a["b"].z))),
-                C("results-are-the-final-contents", z3.And(self.latest(REG(a["a"].z)) == y.z, self.latest(REG(a["b"].z)) == x.z))]
+                C("results-are-the-final-contents", z3.And(self.latest(st, REG(a["a"].z)) == y.z, self.latest(st, REG(a["b"].z)) == x.z))]
 
     def native_search(self, inst, seed):
         r = N20.explore("quick", seed)
@@ -124,7 +124,7 @@ def _wrap_setup(cls):
     orig = cls.setup
 
     def setup(self, st, inst):
-        self.log = []
+        st.ghost["log"] = ()
         a = orig(self, st, inst)
         self._a, self._b = a["a"].z, a["b"].z
         return a
